@@ -55,6 +55,7 @@ def load_contracts(modnames):
     for m in modnames:
         mod = importlib.import_module(m)
         for c in mod.CONTRACTS:
+            c.module = m
             reg.add(c)
             out.append(c)
     return reg, out
@@ -86,9 +87,11 @@ def monitor(contract, ncases, rng, on_case=None):
     fn, cls = resolve_target(contract.target)
     n = 0
     tried = 0
+    base_seed = rng.randrange(1 << 30)
     while n < ncases and tried < ncases * 20:
         tried += 1
-        case = contract.gen(rng)
+        case_seed = f"{base_seed}:{tried}"
+        case = contract.gen(random.Random(case_seed))
         if case is None:
             continue
         args = case.get("args", ())
@@ -110,12 +113,27 @@ def monitor(contract, ncases, rng, on_case=None):
         try:
             rtc.check_call(contract, fn, args, kwargs, universe=case.get("universe"), check_pre=False, self_obj=self_obj)
         except rtc.ContractViolation as cv:
-            return n, {"clause": cv.clause, "kind": cv.kind, "detail": cv.detail[:500], "input": desc}
+            return n, {"clause": cv.clause, "kind": cv.kind, "detail": cv.detail[:500], "input": desc,
+                       "case_seed": case_seed, "target": contract.target, "module": contract.module}
         if on_case:
             on_case(desc)
     if n == 0:
         raise RuntimeError(f"generator of {contract.target} produced no input satisfying the precondition")
     return n, None
+
+
+def replay_monitor(body):
+    """Re-run a recorded counterexample of a T1 contract on the real code."""
+    cx = body["counterexample"]
+    reg, cs = load_contracts([cx["module"]])
+    c = reg.by_target[cx["target"]]
+    fn, cls = resolve_target(c.target)
+    case = c.gen(random.Random(cx["case_seed"]))
+    try:
+        rtc.check_call(c, fn, case.get("args", ()), case.get("kwargs", {}), universe=case.get("universe"), self_obj=case.get("self"))
+    except rtc.ContractViolation as cv:
+        return False, f"{c.target} violates its contract on {case.get('describe') or case.get('args')}: {cv}"
+    return True, f"{c.target} satisfies its contract on the recorded input"
 
 
 def run_t1(rep: Report, modnames, pid=None, quick=True, monitor_cases=200):
